@@ -277,6 +277,26 @@ func anchorScenario(o anchorOpts) *Scenario {
 	return s
 }
 
+// anchorSameBlock: records and purchases of one chain and one beacon that meet in the same block.
+func anchorSameBlock() *Scenario {
+	g := BaseGenesis(mc.AcctSpec{Name: "W1", Coins: Rich()}, mc.AcctSpec{Name: "O", Coins: Rich()})
+	s := &Scenario{Name: "anchor-same-block", Genesis: g, KeyTimeNs: false}
+	next := func(l uint64) uint64 { return l + 1 }
+	w, b := regAct(model.WrkReg, "W1", []string{"chain-a", "Chain a", "0xgena", "geth"}, 1), regAct(model.BcnReg, "W1", []string{"beacon-a", "Beacon a"}, 1)
+	w.PrefixOnly, b.PrefixOnly = true, true
+	core := []Action{
+		wrecAct("wrec(W1,#1,next)", "W1", 1, next), purAct("wpur(W1,#1,1)", model.WrkPur, "W1", 1, 1, ""), purAct("wpur(W1,#1,2)", model.WrkPur, "W1", 1, 2, ""),
+		brecAct("brec(W1,#1)", "W1", 1), purAct("bpur(W1,#1,2)", model.BcnPur, "W1", 1, 2, ""),
+	}
+	s.Actions = append(s.Actions, w, b)
+	s.Prefix = []string{w.Name, b.Name}
+	s.Actions = append(s.Actions, core...)
+	s.Actions = append(s.Actions, pairLetters(core...)...)
+	s.Actions = append(s.Actions, anchorGov("gov(wrk:default=1,max=2)", model.WrkParams, model.AnchorParams{FeeReg: 24, FeeRec: 2, FeePur: 3, Denom: mc.Nund, Default: 1, Max: 2}),
+		Action{Name: "wait(1s)", Dt: time.Second, Enabled: func(m *model.State, _ map[string]int) bool { return elapsed(m) < 5 }})
+	return s
+}
+
 func init() {
 	Checks["C07"] = func() *Check {
 		return &Check{ID: "C07",
@@ -292,6 +312,9 @@ func init() {
 			Runs: []Run{{S: anchorScenario(anchorOpts{name: "anchor-retention", purchases: true}), Opt: map[Tier]Options{
 				Quick:    {Depth: 4, Budget: 150 * time.Second, ReplayEvery: 16},
 				Thorough: {Depth: 8, Budget: 15 * time.Minute, ReplayEvery: 32, MaxStates: 500000},
+			}}, {S: anchorSameBlock(), Opt: map[Tier]Options{
+				Quick:    {Depth: 3, Budget: 60 * time.Second, ReplayEvery: 16},
+				Thorough: {Depth: 5, Budget: 6 * time.Minute, ReplayEvery: 32, MaxStates: 300000},
 			}}},
 			Owns: ownsAny("anch.missing", "anch.unpruned", "anch.meta", "anch.limit", "anch.storage", "tx.accept_unexpected:wrk.pur", "tx.accept_unexpected:bcn.pur"),
 		}
